@@ -204,7 +204,17 @@ def body_form(c, ctx):
     sig = dict(fam=fam)
     ctx.cls(desc['cls'], 'fam:' + fam, 'x=None' if x0 is None else 'x given')
     ctx.nt(fam != 'linear')
-    J, r = NonlinearForm(jx, **params).assemble(basis, x=None if x0 is None else x0.copy())
+    nform = NonlinearForm(jx, **params)
+    J, r = nform.assemble(basis, x=None if x0 is None else x0.copy())
+    if c['seed'] % 2 == 0 and 'hessian' not in params:
+        # the same form object used on another basis of the same class and sizes (the mesh moved): as a fresh form object would
+        m2 = m.translated(tuple([0.5] + [0.25] * (m.dim() - 1)))
+        basis2 = CellBasis(m2, e, intorder=4)
+        Ja, ra = nform.assemble(basis2, x=None if x0 is None else x0.copy())
+        Jb, rb = NonlinearForm(jx, **params).assemble(basis2, x=None if x0 is None else x0.copy())
+        if abs(Ja - Jb).max() > 1e-12 * (1 + abs(Jb).max()) or np.abs(ra - rb).max() > 1e-12 * (1 + np.abs(rb).max()):
+            ctx.fail('form_object_reused', f'{fam}: a NonlinearForm object assembled on a second basis differs from a fresh one by '
+                     f'{abs(Ja - Jb).max():.3e} / {np.abs(ra - rb).max():.3e}', fam=fam)
     xx = basis.zeros() if x0 is None else x0
     prev = basis.interpolate(xx)
     fkw = dict(dtype=params['dtype']) if 'dtype' in params else {}
